@@ -107,6 +107,18 @@ def check_case(model: SrcModel, parts4) -> List[Tuple[str, str, str]]:
     own = []
     for p in parts:
         own.append(evaluate(model, [p], rc, fc))
+        # a single part must report exactly what the requirement / format evaluation of its own condition expression gives
+        if p[2] is not None and "raise" not in own[-1] and "value" not in own[-1]:
+            from .rcsweep import evaluate_tree
+
+            cond = refsem.parse_condition(p[2])
+            fcb = {k: v[0] for k, v in fc.items() if k in refsem.keys_of(cond)}
+            direct = evaluate_tree(model, cond, {k: v for k, v in rc.items() if k in refsem.keys_of(cond)}, fcb)
+            got_ = (own[-1].get("fulfilled"), own[-1].get("fce"), own[-1].get("fc_fulfilled"), own[-1].get("fc_message"))
+            want_ = (direct.get("fulfilled"), direct.get("fce"), direct.get("fc_fulfilled"), repr(direct.get("fc_message")))
+            if "raise" not in direct and got_ != want_:
+                problems.append(("C09.select", text, f"part {p[1]}{p[2]}: the AHB-level result (fulfilled, format expression, format fulfilled, message) = {got_} "
+                                                     f"differs from the result of its own condition expression {want_}"))
     any_invalid = any(r.get("raise") == INVALID for r in own)
     fwd = evaluate(model, parts, rc, fc, order="fwd")
     rev = evaluate(model, parts, rc, fc, order="rev")
